@@ -54,7 +54,7 @@ def declared_set(rng, observable=False, env_prob=0.0, nopts=None, nargs=None):
             env = "VE_" + name.split()[0].upper()
         if isf:
             if observable:
-                decls.append(mkopt("custom", name, custom=dict(CUSTOM_FLAG), env=env))
+                decls.append(mkopt("custom", name, custom=dict(CUSTOM_FLAG), env=env, sbu=True))
             else:
                 decls.append(mkopt("bool", name, env=env, **{"def": ["false"]}))
         else:
@@ -62,8 +62,9 @@ def declared_set(rng, observable=False, env_prob=0.0, nopts=None, nargs=None):
                                **{"def": [] if observable else ["d"]}))
             if decls[-1]["kind"] == "strings":
                 decls[-1]["def"] = []
+            decls[-1]["sbu"] = observable
     for n in ["SRC", "DST", "X"][:nargs]:
-        decls.append(mkarg("strings", n))
+        decls.append(mkarg("strings", n, sbu=observable))
     return decls
 
 
@@ -107,14 +108,17 @@ def render_seq(s):
 def gen_spec(rng, decls, depth=3, allow_dd=True, size=None):
     opts = [d for d in decls if d["t"] == "opt"]
     args = [d for d in decls if d["t"] == "arg"]
-    state = {"dd": False}
+    state = {"dd": False, "budget": rng.randint(2, 9)}
 
     def atom(dep):
         r = rng.random()
+        state["budget"] -= 1
+        if state["budget"] <= 0:
+            dep = 0
         if dep > 0 and r < 0.18:
-            return ("par", seq(dep - 1, 1, 3))
+            return ("par", seq(dep - 1, 1, 2))
         if dep > 0 and r < 0.40:
-            return ("sq", seq(dep - 1, 1, 3))
+            return ("sq", seq(dep - 1, 1, 2))
         if state["dd"] or not opts:
             r = 0.99 if r >= 0.40 else r
         if r < 0.62 and opts and not state["dd"]:
@@ -143,11 +147,14 @@ def gen_spec(rng, decls, depth=3, allow_dd=True, size=None):
         return (a, rep)
 
     def choice(dep):
-        n = 1 if rng.random() < 0.75 else rng.randint(2, 3)
+        n = 1 if (rng.random() < 0.75 or state["budget"] <= 0) else rng.randint(2, 3)
         return [ratom(dep) for _ in range(n)]
 
     def seq(dep, lo, hi):
-        return [choice(dep) for _ in range(rng.randint(lo, hi))]
+        n = rng.randint(lo, hi)
+        if state["budget"] <= 0:
+            n = min(n, max(lo, 1))
+        return [choice(dep) for _ in range(n)]
 
     return seq(depth, 0 if rng.random() < 0.03 else 1, size or 4)
 
@@ -303,7 +310,7 @@ def sample_sentence(rng, spec, decls, envset=()):
     def seq(s):
         for ch in s:
             (a, rep) = rng.choice(ch)
-            for _ in range(rng.randint(1, 3) if rep else 1):
+            for _ in range(rng.randint(1, 3) if rep and len(out) < 10 else 1):
                 atom(a)
 
     seq(spec)
